@@ -158,6 +158,19 @@ CLAIMED.update({
             "DESIGN.md §3 C07"),
 })
 
+CLAIMED.update({
+    "C13": ("Steps on the real equipment handler with tables of two user entries (symbolic ids, values, limits, flags): S1F3/S1F11 and "
+            "S2F13/S2F29 with id lists of 0..3 known / unknown / repeated ids must answer exactly the requested items in request order "
+            "(empty item for unknown ids); S2F15 with 1..3 entries and symbolic values around the limits applies all or nothing and "
+            "never leaves a constant outside [min, max]; S5F5/S5F7 list the requested / enabled alarms with their set state; set_alarm, "
+            "clear_alarm and S5F3 from every enabled/set combination send S5F1 exactly for state changes of enabled alarms. The float "
+            "range guard of S2F15 is translated from the source to a z3 FloatingPoint query (NaN, infinities, every double).",
+            "Trusted: CrossHair + chx, z3, the reference model in obligations/C13.py; tables replaced by SimpleDicts with the user entries "
+            "only; requests as structured function objects. Outside: text ids, > 3 ids per request, built-in CLOCK value, S5F5 with "
+            "unknown ids (not promised by the property), ALED bytes other than 0x00/0x80.",
+            "DESIGN.md §3 C13"),
+})
+
 NOT_APPLICABLE = {
 }
 
